@@ -258,27 +258,28 @@ struct ReplyWorld : World {
 	// ---- enumeration: scripted round trips (request, deliver, serve, answer, flush, deliver back, take the reply) repeated three times
 	// over layer {L2, L3} x id width 1..4 x reply intake {dispatch, sync} x 7 responder behaviours x requester handler {ok, fails}
 	// x allocation fault on the first serve {none, 1st, 2nd, 3rd allocation once, everything from the 1st / 2nd on}
-	uint64_t sweep_count(int) override { return 2 * 4 * 2 * 7 * 2 * 6; }
+	uint64_t sweep_count(int) override { return 3 * 4 * 2 * 7 * 2 * 6; }
 	void sweep_plan(uint64_t idx, int, Plan &p) override {
-		unsigned layer = 2 + idx % 2; idx /= 2;
+		unsigned layer = 2 + idx % 3; idx /= 3;      // L2, L3, L4 (io::stream requester: the fault variant hits the first request instead of the first serve, the second request is one-way)
 		unsigned idlen = 1 + idx % 4; idx /= 4;
 		unsigned intake = idx % 2; idx /= 2;
 		unsigned beh = idx % 7; idx /= 7;
 		unsigned cbfail = idx % 2; idx /= 2;
 		unsigned fv = idx % 6;
 		p.set("layer", layer); p.set("idlen", idlen);
-		if (layer == 2) { p.set("chancap", 4096); p.set("sync", intake); p.set("big", 0); }
+		if (layer == 2 || layer == 4) { p.set("chancap", 4096); p.set("sync", intake); p.set("big", 0); }
 		auto add = [&](int kind, int side, int64_t a = 0, int64_t b = 0, int64_t c = 0) { Op o; o.kind = kind; o.a = a; o.b = side | b; o.c = c; p.ops.push_back(o); return p.ops.size() - 1; };
 		const int A = 0, B = 1;
 		for (unsigned round = 0; round < 3; ++round) {
-			unsigned bh = (beh + 3 * round) % 7; bool awaited = round != 2;
-			add(OP_REQ, A, (cbfail && round == 0) ? 0 : 4, (int64_t) (bh << 8) | (awaited ? 1 << 16 : 0), 7 + round);
-			add(OP_DELIVER, A, 0, 0, layer == 2 ? 1000000 : 0);
+			unsigned bh = (beh + 3 * round) % 7; bool awaited = layer == 4 ? round != 1 : round != 2;
+			size_t rq = add(OP_REQ, A, (cbfail && round == 0) ? 0 : 4, (int64_t) (bh << 8) | (awaited ? 1 << 16 : 0), 7 + round);
+			if (layer == 4 && round == 0 && fv) { p.ops[rq].fault = FL_ALLOC; p.ops[rq].fa = (int64_t) fv; }
+			add(OP_DELIVER, A, 0, 0, layer != 3 ? 1000000 : 0);
 			size_t sv = add(OP_SERVE, B);
-			if (round == 0 && fv) { p.ops[sv].fault = FL_ALLOC; p.ops[sv].fa = fv <= 3 ? (int64_t) fv : (int64_t) (16 + fv - 3); }
+			if (round == 0 && fv && layer != 4) { p.ops[sv].fault = FL_ALLOC; p.ops[sv].fa = fv <= 3 ? (int64_t) fv : (int64_t) (16 + fv - 3); }
 			add(OP_DREPLY2, B, 0);
 			add(OP_FLUSH, B);
-			add(OP_DELIVER, B, 0, 0, layer == 2 ? 1000000 : 0);
+			add(OP_DELIVER, B, 0, 0, layer != 3 ? 1000000 : 0);
 			add(intake ? OP_SYNC : OP_SERVE, A);
 		}
 		add(OP_SERVE, A); add(OP_SERVE, B);
@@ -621,7 +622,7 @@ struct ReplyWorld : World {
 				if (fired) { st.hit("fault:allocfail_in_request"); Q.faulted = true; }
 				if (Q.push_failed && !fired) st.hit("probe:send_refused_without_fault");
 				if (Q.push_failed && side == 0) { Sut s; ios->push(1, 0); }        // the caller drops the partial message
-				log.ev("REQUEST %s r%u id=%llx behaviour=%d %s payload=%zu -> %s", P.name, Q.serial, (unsigned long long) Q.cid, Q.behaviour, Q.awaited ? "awaited" : "one-way", Q.payload.size(), Q.sent ? "sent" : "failed");
+				log.ev("REQUEST %s r%u id=%llx behaviour=%d %s payload=%zu -> %s (await %d, push %zd)", P.name, Q.serial, (unsigned long long) Q.cid, Q.behaviour, Q.awaited ? "awaited" : "one-way", Q.payload.size(), Q.sent ? "sent" : "failed", ar, r);
 				if (Q.awaited && Q.sent && !Q.cid) fail("no-id", "awaited request r%u was sent without an id", Q.serial);
 				outcome = Q.sent; break;
 			}
